@@ -10,7 +10,8 @@ Local Open Scope N_scope.
 
 (* every well-formed link file — any number of blocks, any subset and order of
    the seven line kinds, comments, continuation abstracts, each block indented by
-   any run of blanks (as the manual prints its examples) — is read by the
+   any run of blanks (as the manual prints its examples), blocks separated by one or
+   more blank lines and by whole comment paragraphs — is read by the
    parser exactly as the reference reading says, in every variant of the code *)
 Theorem parse_wf_blocks :
   forall fx base dirsel lf, wf_linkfile lf = true ->
@@ -18,6 +19,14 @@ Theorem parse_wf_blocks :
     Ok (map (fun b => default_num fx (spec_lentry base dirsel b)) lf).
 Proof. exact UMNFacts.parse_wf_blocks. Qed.
 Print Assumptions parse_wf_blocks.
+
+(* ... also when blank lines and comment lines follow the last block *)
+Theorem parse_wf_blocks_trailing :
+  forall fx base dirsel lf tr, wf_linkfile lf = true -> wf_noise tr = true ->
+    process_link_file fx base dirsel None (render_linkfile_trailing lf tr) =
+    Ok (map (fun b => default_num fx (spec_lentry base dirsel b)) lf).
+Proof. exact UMNFacts.parse_wf_blocks_trailing. Qed.
+Print Assumptions parse_wf_blocks_trailing.
 
 (* a block whose Path does not start with ./ adds exactly one entry, at the end,
    and leaves every other entry as it was *)
